@@ -535,8 +535,8 @@ def buildAttConn (c2vBase opp vc : Array Nat) (seamCorners : Array Nat) : R AttC
           break
         firstC := actC
         actC := nextC (← attOpp edgeSeam (nextC actC))
-        if actC == c then throw .fail
-      if !fin then throw (.fuel "RecomputeVertices: swing left")
+        if actC == c then raise .fail
+      if !fin then raise (.fuel "RecomputeVertices: swing left")
     c2v ← wr "corner_to_vertex_map_" c2v firstC firstVertId
     lm := lm.push firstC
     let mut actC ← swingRight opp firstC
@@ -550,7 +550,7 @@ def buildAttConn (c2vBase opp vc : Array Nat) (seamCorners : Array Nat) : R AttC
         lm := lm.push actC
       c2v ← wr "corner_to_vertex_map_" c2v actC firstVertId
       actC ← swingRight opp actC
-    if !fin then throw (.fuel "RecomputeVertices: swing right")
+    if !fin then raise (.fuel "RecomputeVertices: swing right")
   pure { edgeSeam, vertSeam, c2v, lm, noInteriorSeams := noInterior }
 
 /-- `AssignPointsToCorners`: flat face array (point ids) and the number of points -/
